@@ -207,3 +207,74 @@ Definition received (tr : list (st * op * out)) : list bytes := flat_map recv_of
 (* batches that were enqueued (not dropped), in order *)
 Definition enqueued (fl : list (list bytes * bool)) : list (list bytes) :=
   map fst (filter snd fl).
+
+(* ---- lock-level model of Close racing with the timer callback -------------------------------
+   The operations above are atomic because every method holds the mutex m.l. One interleaving is
+   not covered by that abstraction: Close() keeps m.l while pendingTimer.Stop() waits for the
+   dispatcher goroutine (timer.Stop -> wg.Wait), and the dispatcher may at that moment be inside
+   the timer callback waiting for m.l.
+
+   closer:     Close():   m.l.Lock(); clearPending(); pendingTimer.Stop() {finished = true; wg.Wait()};
+                          closed = true; close(Queue); m.l.Unlock()
+   dispatcher: avalanchego timer.Dispatch: wait for timer / reset; on fire (if not finished) call the
+               handler = { m.l.Lock(); ...; m.l.Unlock() }; exit (wg.Done) once finished is seen. *)
+
+Inductive cstate := CIdle | CLocked | CStopping | CDone.
+Inductive dstate := DWait | DFired | DInHandler | DAfter | DExit.
+
+Record lk := mklk {
+  l_owner : N;            (* m.l: 0 free, 1 held by Close, 2 held by the timer callback *)
+  l_closer : cstate;
+  l_disp : dstate;
+  l_finished : bool       (* timer.finished *)
+}.
+
+Definition linit : lk := mklk 0 CIdle DWait false.   (* a message is pending: the timer is armed *)
+
+Inductive lact :=
+| ACloseLock      (* Close: m.l.Lock() *)
+| ACloseStop      (* Close: pendingTimer.Stop(): finished = true, then wg.Wait() *)
+| ACloseReturn    (* Close: wg.Wait() returned; m.l.Unlock() *)
+| ATimerFire      (* dispatcher: timer fired, finished not set: about to run the handler *)
+| AHandlerLock    (* handler: m.l.Lock() *)
+| AHandlerUnlock  (* handler: m.l.Unlock(), back in the dispatch loop *)
+| ADispExit.      (* dispatcher: sees finished, returns (wg.Done) *)
+
+Definition all_lacts : list lact :=
+  [ACloseLock; ACloseStop; ACloseReturn; ATimerFire; AHandlerLock; AHandlerUnlock; ADispExit].
+
+Definition lstep (s : lk) (a : lact) : option lk :=
+  match a, l_closer s, l_disp s with
+  | ACloseLock, CIdle, _ =>
+      if l_owner s =? 0 then Some (mklk 1 CLocked (l_disp s) (l_finished s)) else None
+  | ACloseStop, CLocked, _ => Some (mklk (l_owner s) CStopping (l_disp s) true)
+  | ACloseReturn, CStopping, DExit => Some (mklk 0 CDone DExit (l_finished s))
+  | ATimerFire, _, DWait =>
+      if l_finished s then None else Some (mklk (l_owner s) (l_closer s) DFired (l_finished s))
+  | AHandlerLock, _, DFired =>
+      if l_owner s =? 0 then Some (mklk 2 (l_closer s) DInHandler (l_finished s)) else None
+  | AHandlerUnlock, _, DInHandler => Some (mklk 0 (l_closer s) DAfter (l_finished s))
+  | ADispExit, _, DWait | ADispExit, _, DAfter =>
+      if l_finished s then Some (mklk (l_owner s) (l_closer s) DExit (l_finished s)) else None
+  | _, _, _ => None
+  end.
+
+Fixpoint lrun (s : lk) (acts : list lact) : option lk :=
+  match acts with
+  | [] => Some s
+  | a :: r => match lstep s a with Some s1 => lrun s1 r | None => None end
+  end.
+
+Definition lstuck (s : lk) : bool :=
+  forallb (fun a => match lstep s a with None => true | Some _ => false end) all_lacts.
+
+Definition closer_done (s : lk) : bool := match l_closer s with CDone => true | _ => false end.
+
+(* the schedule the driver forces: the timer fires while Close is between Lock and Stop.
+   Result code of Close: 0 = returned, 7 = never returns *)
+Definition race_schedule : list lact := [ACloseLock; ATimerFire; ACloseStop].
+Definition race_outcome : N :=
+  match lrun linit race_schedule with
+  | Some s => if lstuck s && negb (closer_done s) then 7 else 0
+  | None => 0
+  end.
